@@ -82,7 +82,10 @@ class C13(BaseCheck):
           'dictionaries (ASCII / multi-byte UTF-8 / empty / up to 32767-byte strings), deadlines, '
           'client ids, methods and argument values of two Thrift interfaces; 4 Tdiscarded frames; '
           '10 replies (Rdispatch OK/ERROR/NACK with reply contexts, Rerr, BAD_Rerr) pushed through '
-          'the real reply path. non-trivial = at least one frame decoded; distinct by (kind, '
+          'the real reply path. (3) wire: every 5th batch instead runs a real ThriftMux client from the public '
+          'builder (ASCII / non-ASCII / long client ids, per-call deadlines) against the simulated peer, whose '
+          'independent decoder must recover client id, deadline, empty dst/dtab and the call from every frame '
+          'actually written. non-trivial = at least one frame decoded; distinct by (kind, '
           'string classes present, tag classes, reply kinds)')
   ANCHORS = ('scales.thriftmux.serializer:MessageSerializer._WriteContext',
              'scales.thriftmux.serializer:MessageSerializer._Marshal_Tdiscarded',
@@ -92,7 +95,7 @@ class C13(BaseCheck):
   REQUIRED_ANCHORS = ANCHORS
   REQUIRED_CLASSES = ('headers', 'ctx:ascii', 'ctx:utf8', 'ctx:empty', 'ctx:long', 'ctx:none',
                       'deadline', 'client-id', 'reply:OK', 'reply:ERROR', 'reply:NACK', 'reply:Rerr',
-                      'reply:BAD_Rerr', 'tdiscarded')
+                      'reply:BAD_Rerr', 'tdiscarded', 'wire')
   ASSUMPTIONS = ('context keys/values are text; encoded length of each <= 32767 bytes (int16 length field)',
                  'deadline context = (whole-second wall-clock timestamp in ns, absolute deadline in ns), '
                  'deadline compared with 1us tolerance for the float->ns conversion')
@@ -375,10 +378,54 @@ class C13(BaseCheck):
       out.sample = {'kind': 'frame batch', 'client_id': client_id, 'classes': sorted(classes),
                     'last_frame_head': frame[:48]}
 
+  def _wire(self, env, rng, idx, tier, out):
+    """Frames a real ThriftMux client (public builder) actually writes, captured at the
+    simulated peer: decoded by the independent codec there; contexts (client id, deadline)
+    and the Thrift call must be what the caller supplied."""
+    from vlib import muxcodec as mc, servers
+    from vlib.stackworld import StackWorld
+    client_id = rng.choice(['client', 'cliént-€', '日本', 'svc.prod', 'x' * 300])
+    w = StackWorld(env, rng, kind='mux', n_eps=1, timeout=2.0, client_id=client_id,
+                   policy=servers.DefaultPolicy(0.001))
+    srv = w.servers[0]
+    sent = []
+    for _ in range(rng.randint(2, 8)):
+      s_ = gen_text(rng, False)
+      rec = w.call('echo', ('c%d-%s' % (len(w.calls), s_),), timeout=rng.choice([0.5, 2.0, 30.0]))
+      sent.append(rec)
+      env.advance(rng.choice([0.0, 0.01]))
+    env.advance(0.5)
+    out.obligations += 1
+    for bf in srv.bad_frames:
+      out.violate('wire:undecodable', 'the peer\'s independent decoder rejected a frame the client wrote: %r' % (bf,), {})
+    for rec, q in zip(sent, srv.requests):
+      out.obligations += 3
+      ctx = dict(q['contexts'])
+      if ctx.get(mc.CLIENT_ID_KEY) != client_id.encode('utf-8'):
+        out.violate('wire:client-id', 'client id context %r, supplied %r' % (ctx.get(mc.CLIENT_ID_KEY), client_id),
+                    {'nonascii': any(ord(c) > 127 for c in client_id)})
+      dl = ctx.get(mc.DEADLINE_KEY)
+      try:
+        ts, dns = mc.decode_deadline(dl)
+        if abs(dns - (rec['t'] + rec['T']) * 1e9) > 2000 or ts != int(rec['t']) * 10 ** 9:
+          out.violate('wire:deadline', 'deadline context (%d,%d) for call issued at %r with T=%r' % (ts, dns, rec['t'], rec['T']), {})
+      except Exception as e:  # noqa
+        out.violate('wire:deadline', 'deadline context undecodable: %r' % e, {})
+      if q['call'] != ('echo', rec['args']) or q['dst'] != b'' or q['dtab'] != [] or not (2 <= q['tag'] <= (1 << 24) - 2):
+        out.violate('wire:call', 'peer decoded %r tag %r for call echo%r' % (q['call'], q['tag'], rec['args']), {})
+    w.close()
+    env.advance(0.1)
+    out.classes = ['wire']
+    out.nontrivial = len(srv.requests) > 0
+    out.extra = {'wire_frames': len(srv.requests)}
+    out.sig = ('wire', client_id[:8], len(sent))
+
   def run_case(self, env, rng, idx, tier):
     out = CaseResult()
     if idx < self.nheader:
       self._header_chunk(env, rng, idx, tier, out)
+    elif idx % 5 == 0:
+      self._wire(env, rng, idx, tier, out)
     else:
       self._frame_batch(env, rng, idx, tier, out)
     return out
